@@ -146,6 +146,20 @@ def judge(run, pid, proj, text, q, res, stats, mism):
                     break
 
 
+# attribute values that contain the connectives of the query language (initialisers are kept without blanks)
+GATE = """class Gate {
+    boolean both(boolean left, boolean right) {
+        boolean and = left && right;
+        boolean or = left || right;
+        boolean mix = left&&right||!left;
+        String text = "a && b";
+        String bars = "x||y";
+        return and;
+    }
+}
+"""
+
+
 def sweep(run, pid):
     C.build_driver()
     h, d = C.Harness(), C.Driver()
@@ -159,7 +173,7 @@ def sweep(run, pid):
     projs = []
     try:
         for pi in range(nproj):
-            proj = E.small_project(rng, h, nfiles=rng.randint(1, 3))
+            proj = E.small_project(rng, h, nfiles=rng.randint(1, 3), extra={"src/Gate.java": GATE})
             projs.append(proj)
             kinds = [k for k in QG.KINDS_DEFAULT if proj.by_kind.get(k)]
             # --- exhaustive shapes over 3 atoms (1 entity) and 2+1 atoms (2 entities)
@@ -279,6 +293,20 @@ def sweep(run, pid):
                     res = E.engine_case(proj, d, text, q)
                     run.count(("special", k, text))
                     judge(run, pid, proj, text, q, res, stats, mism)
+            # --- literals that contain && or ||: they are compared as they are written
+            for k in ["variable_declaration"]:
+                vals = [v for v in (proj.values.get((k, "getVariableValue")) or []) if "&&" in v or "||" in v]
+                for v in vals[:6]:
+                    for f in [("atom", (QG.ident("x"), QG.sym("."), QG.ident("getVariableValue"), QG.sym("("), QG.sym(")"), QG.sym("=="), QG.strlit(QG.esc_lit(v)))),
+                              QG.mk("and", ("atom", (QG.ident("x"), QG.sym("."), QG.ident("getVariableValue"), QG.sym("("), QG.sym(")"), QG.sym("=="), QG.strlit(QG.esc_lit(v)))),
+                                    ("atom", (QG.ident("x"), QG.sym("."), QG.ident("getName"), QG.sym("("), QG.sym(")"), QG.sym("!="), QG.strlit("a||b && c")))),
+                              QG.mk("not", ("atom", (QG.ident("x"), QG.sym("."), QG.ident("getVariableValue"), QG.sym("("), QG.sym(")"), QG.sym("!="), QG.strlit(QG.esc_lit(v)))))]:
+                        q = make_query([(k, "x")], f, "x")
+                        text = QG.plain(q)
+                        res = E.engine_case(proj, d, text, q)
+                        run.count(("connective-literal", text))
+                        stats["connective_literal_cases"] += 1
+                        judge(run, pid, proj, text, q, res, stats, mism)
     finally:
         for p in projs:
             p.close()
